@@ -4,5 +4,6 @@ pub mod golden;
 pub mod model;
 pub mod report;
 pub mod util;
+pub mod xs;
 pub mod checks;
 pub mod replay;
